@@ -4,6 +4,8 @@
    Model: Builder.v (mirrors src/sessions/builder.rs); reference predicate: BuilderSpec.v (transcribed
    from the documentation, does not use the model functions). *)
 From GGRS Require Import Base Consts Builder BuilderSpec BuilderProofs.
+From GGRS Require Queue Sync P2P.
+From Coq Require Import Lia.
 Open Scope Z_scope.
 
 (* side condition on the constant generated from builder.rs: the default player count is itself a
@@ -75,6 +77,41 @@ Example C16_invalid_example :
   Forall usize_call ex_invalid /\ first_invalid ex_invalid FP2P 3 /\
   run_calls ex_invalid FP2P = (3%nat, Err).
 Proof. exact (conj ex_invalid_usize (conj ex_invalid_first_invalid ex_invalid_runs)). Qed.
+
+(* ---------------------------------------------------------------------------------------------------
+   RUN-TIME MISUSE (session-core model coq/P2P.v, `session` correspondence level): a call with a wrong
+   handle or in the wrong state answers the documented error and leaves the session state exactly as it
+   was - nothing is queued, sent, or requested.  For EVERY session state. *)
+Theorem C16_misuse_leaves_state_unchanged :
+  forall (predict : Z -> Z) (p : P2P.p2p),
+  (* input for a handle that is not a local player: InvalidRequest *)
+  (forall h v, P2P.kind_at p h <> Some P2P.KLocal -> P2P.api_add_local_input p h v = (p, P2P.AInvalidRequest)) /\
+  (* advancing before synchronisation: NotSynchronized *)
+  (P2P.ps_running p = false -> P2P.advance predict p = Ok (p, P2P.out0, P2P.ANotSynchronized)) /\
+  (* advancing with a local input missing: InvalidRequest *)
+  (P2P.ps_running p = true ->
+   (exists h, In h (P2P.local_handles p) /\ P2P.assoc_get (P2P.ps_pending p) h = None) ->
+   P2P.advance predict p = Ok (p, P2P.out0, P2P.AInvalidRequest)) /\
+  (* disconnecting a local, unknown or already disconnected player: InvalidRequest *)
+  (forall h, (h < 0 \/ P2P.kind_at p h = None \/ P2P.kind_at p h = Some P2P.KLocal \/
+              (exists e, P2P.kind_at p h = Some (P2P.KRemote e) /\ Sync.cs_disc (P2P.stat_at p h) = true)) ->
+             P2P.api_disconnect_player p h = Ok (p, P2P.AInvalidRequest)) /\
+  (* changing the input delay of a player that is not local: InvalidRequest *)
+  (forall h d, (h < 0 \/ P2P.kind_at p h <> Some P2P.KLocal) ->
+               P2P.api_set_input_delay p h d = Ok (p, P2P.out0, P2P.AInvalidRequest)).
+Proof.
+  intros predict p. split; [|split; [|split; [|split]]].
+  - intros h v H. unfold P2P.api_add_local_input. destruct (P2P.kind_at p h) as [[| |]|]; try reflexivity. congruence.
+  - intros H. unfold P2P.advance. rewrite H. reflexivity.
+  - intros H (h & Hin & Hn). unfold P2P.advance. rewrite H. cbn [negb].
+    assert (forallb (fun h0 => match P2P.assoc_get (P2P.ps_pending p) h0 with Some _ => true | None => false end) (P2P.local_handles p) = false) as ->.
+    { apply Bool.not_true_is_false. intro A. rewrite forallb_forall in A. specialize (A h Hin). rewrite Hn in A. discriminate. }
+    reflexivity.
+  - intros h H. unfold P2P.api_disconnect_player. destruct (Z.ltb_spec h 0); [reflexivity|].
+    destruct H as [H|[H|[H|(e & H & Hd)]]]; [lia|rewrite H; reflexivity|rewrite H; reflexivity|rewrite H, Hd; reflexivity].
+  - intros h d H. unfold P2P.api_set_input_delay. destruct (Z.ltb_spec h 0); [reflexivity|].
+    destruct H as [H|H]; [lia|]. destruct (P2P.kind_at p h) as [[| |]|]; try reflexivity. congruence.
+Qed.
 
 Check C16_builder_spec : forall cs f, Forall usize_call cs ->
   snd (run_calls cs f) <> Panic /\
